@@ -156,16 +156,17 @@ def harmonize_datasets(
     # for torch elements, convert them to numpy arrays or tf datasets
     if isinstance(cases_dataset, tf.data.Dataset):
         # compute batch size and cardinality
-        if is_batched(cases_dataset):
-            if isinstance(cases_dataset.element_spec, tuple):
-                batch_size = tf.shape(next(iter(cases_dataset))[0])[0].numpy()
-            else:
-                batch_size = tf.shape(next(iter(cases_dataset)))[0].numpy()
-        else:
+        if not is_batched(cases_dataset):
             assert batch_size is not None, (
                 "The dataset is not batched, hence a `batch_size` should be provided."
             )
             cases_dataset = cases_dataset.batch(batch_size)
+        # the batch size is the size of the first batch (it is smaller than the
+        # requested one when there are fewer cases than `batch_size`)
+        if isinstance(cases_dataset.element_spec, tuple):
+            batch_size = tf.shape(next(iter(cases_dataset))[0])[0].numpy()
+        else:
+            batch_size = tf.shape(next(iter(cases_dataset)))[0].numpy()
         cardinality = cases_dataset.cardinality().numpy()
 
         # handle multi-column datasets
